@@ -87,6 +87,7 @@ func leaves(inLoop bool) []gen.Stmt {
 	l := []gen.Stmt{
 		gen.ExprStmt{X: gen.Call{Fn: gen.Name{N: "L"}, Args: []gen.Expr{placeholder}}},
 		gen.Return{X: placeholder},
+		gen.Return{}, // a return without a value is compiled by its own branch
 		gen.Throw{X: gen.StrLit{V: "?"}},
 		runtimeError,
 		gen.ExprStmt{X: gen.Call{Fn: gen.Name{N: "thrower"}}},
